@@ -58,7 +58,8 @@ def unmanaged_case(old_src, new_src, leafvals, approved, extra_ns=None, star=Fal
         nested_inner = [u for u in before if u.startswith("snapshot(")]
     PathLog.record(old_src + "=>" + arg, nontrivial=arg != old_src, sample={"previous": old_src, "observed": new_src, "approved": sorted(approved), "rewritten": arg})
     if star:
-        return arg == old_src  # containers holding star-expressions are left alone, byte for byte
+        with world.NoTracing():
+            return arg == world.snapshot_arg_sources(str(r.text_before))[0]  # containers holding star-expressions are left alone, byte for byte
     # 0. no change edits a user-controlled expression itself (deleting the element/entry that holds it is allowed)
     with world.NoTracing():
         for c in r.changes:
@@ -87,6 +88,23 @@ def unmanaged_case(old_src, new_src, leafvals, approved, extra_ns=None, star=Fal
         if not (val == new):
             return False
     return True
+
+
+def in_is_case(leafvals, approved):
+    """`x in snapshot([Is(c0), h1])`: whatever is approved, the Is(...) element is not rewritten"""
+    ns = {"Is": Is}
+    ns.update(leafvals)
+    world.reset(ns)
+    t = HEAD + "def test_a():\n    assert x0 in snapshot([Is(c0), h1])\n"
+    r = world.core_session(t, approved)
+    with world.NoTracing():
+        arg = world.snapshot_arg_sources(str(r.text))[0]
+        before = UNMANAGED_RE.findall(world.snapshot_arg_sources(str(r.text_before))[0])
+    PathLog.record("inis" + arg, nontrivial=r.changed, sample={"previous": "[Is(c0), h1]", "approved": sorted(approved), "rewritten": arg})
+    # the Is element is kept verbatim, or removed as a whole by an approved trim when it was not the tested member
+    if before[0] in arg:
+        return True
+    return "trim" in approved and "Is(" not in arg and not (leafvals["c0"] == leafvals["x0"])
 
 
 def is_equal_case(old_src, new_src, leafvals):
@@ -183,7 +201,7 @@ def survival_keyed(old_src, new_src, keys_old, leafvals):
     return world.snapshot_values(r.text)[0] == new
 
 
-GLB = {"unmanaged_case": unmanaged_case, "is_equal_case": is_equal_case, "survival_case": survival_case, "survival_keyed": survival_keyed, "__name__": "harness.c10"}
+GLB = {"in_is_case": in_is_case, "unmanaged_case": unmanaged_case, "is_equal_case": is_equal_case, "survival_case": survival_case, "survival_keyed": survival_keyed, "__name__": "harness.c10"}
 
 CASES = [
     # name, previous source, observed source, symbolic names, extra namespace, star
@@ -205,6 +223,13 @@ CASES = [
     ("star_dict", "{1: c0, **rest}", "{1: n0, 2: n1}", ["c0", "c1", "n0", "n1"], "rest_dict", True),
     ("star_call_kw", "P(a=c0, **rest)", "P(a=n0, b=n1)", ["c0", "c1", "n0", "n1"], "rest_kw", True),
     ("star_call_pos", "P(*rest)", "P(a=n0, b=n1)", ["c0", "c1", "n0", "n1"], "rest_pos", True),
+    ("star_list_two", "[c0, *rest]", "[n0, n1, n2]", ["c0", "c1", "n0", "n1", "n2"], "rest_list2", True),
+    ("star_list_none", "[c0, *rest]", "[n0]", ["c0", "n0"], "rest_list0", True),
+    ("star_dict_two", "{**rest, 3: c0}", "{1: n0, 2: n1, 3: n2}", ["c0", "c1", "n0", "n1", "n2"], "rest_dict2", True),
+    ("star_dict_none", "{**rest, 3: c0}", "{3: n0}", ["c0", "n0"], "rest_dict0", True),
+    ("star_call_kw_none", "P(a=c0, **rest)", "P(a=n0, b=n1)", ["c0", "n0", "n1"], "rest_dict0", True),
+    ("is_namedtuple_kw", "NT(a=c0, b=Is(c1))", "NT(a=n0, b=n1)", ["c0", "c1", "n0", "n1"], None, False),
+    ("is_attrs_kw", "A(a=c0, b=Is(c1))", "A(a=n0, b=n1)", ["c0", "c1", "n0", "n1"], None, False),
     ("nested_snapshot_same", "[snapshot(c0), c1]", "[n0, n1]", ["c0", "c1", "n0", "n1"], None, False),
     ("nested_snapshot_longer", "[snapshot(c0), c1]", "[n0, n1, n2]", ["c0", "c1", "n0", "n1", "n2"], None, False),
     ("nested_snapshot_dict", "{1: snapshot(c0), 2: c1}", "{1: n0, 2: n1}", ["c0", "c1", "n0", "n1"], None, False),
@@ -223,6 +248,14 @@ def conditions(tier):
                 ex = "{'rest': {2: c1}}"
             elif extra == "rest_kw":
                 ex = "{'rest': {'b': c1}}"
+            elif extra == "rest_list2":
+                ex = "{'rest': [c1, c1]}"
+            elif extra == "rest_list0":
+                ex = "{'rest': []}"
+            elif extra == "rest_dict2":
+                ex = "{'rest': {1: c1, 2: c1}}"
+            elif extra == "rest_dict0":
+                ex = "{'rest': {}}"
             elif extra == "rest_pos":
                 ex = "{'rest': [c0, c1]}"
             else:
@@ -234,6 +267,10 @@ def conditions(tier):
     for name, o, n, names in [("list", "[c0, Is(c1), c2]", "[n0, n1, n2]", ["c0", "c1", "c2", "n0", "n1", "n2"]), ("dc", "P(a=c0, b=Is(c1))", "P(a=n0, b=n1)", ["c0", "c1", "n0", "n1"])]:
         body = f"return is_equal_case({o!r}, {n!r}, {{{', '.join(f'{x!r}: {x}' for x in names)}}})"
         conds.append(Cond(f"unm_equal_{name}", mkfn(f"unm_equal_{name}", [(x, "int") for x in names], body, GLB), timeout=600, group="unmanaged", bounds=f"`{o}` vs `{n}`: nothing is rewritten when everything matches"))
+    for sub in ({"update"}, {"fix", "update"}, {"create", "fix", "trim", "update"}, {"trim"}):
+        cname = f"unm_in_is_{''.join(sorted(c[0] for c in sub))}"
+        conds.append(Cond(cname, mkfn(cname, [(x, "int") for x in ["c0", "h1", "x0"]], f"return in_is_case({{'c0': c0, 'h1': h1, 'x0': x0}}, {sub!r})", GLB), timeout=600, group="unmanaged",
+                          bounds=f"`x0 in snapshot([Is(c0), h1])`, approved {sorted(sub)}"))
     tw = mkfn("unm_twin", [(x, "int") for x in ["c0", "c1", "c2", "n0", "n1", "n2"]], "return unmanaged_case('[c0, Is(c1), c2]', '[n0, n1, n2]', {'c0': c0, 'c1': c1, 'c2': c2, 'n0': n0, 'n1': n1, 'n2': n2}, {'fix'})", GLB, post="not _")
     conds.append(Cond("unm_twin", tw, timeout=60, twin=True))
     return conds
